@@ -1745,9 +1745,9 @@ class ISLaSolver:
             self.logger.debug(
                 "Eliminating semantic predicate formula %s", semantic_predicate_formula
             )
-            changed = True
 
             if evaluation_result.is_boolean():
+                changed = True
                 result = SolutionState(
                     language.replace_formula(
                         result.constraint,
@@ -1759,6 +1759,25 @@ class ISLaSolver:
                 continue
 
             substitution = subtree_solutions(evaluation_result.result)
+
+            # `DerivationTree.substitute` skips a replacement that contains the replaced
+            # node itself somewhere below its root (e.g., if `count` embeds the tree
+            # into a bigger one to make room for more needles). The predicate only
+            # holds for the proposed trees: if they did not make it into the tree, we
+            # must not eliminate the predicate, but evaluate it again later.
+            substituted_tree = result.tree.substitute(substitution)
+            if any(
+                isinstance(orig, DerivationTree)
+                and (path := result.tree.find_node(orig)) is not None
+                and not (
+                    substituted_tree.is_valid_path(path)
+                    and substituted_tree.get_subtree(path).structurally_equal(subst)
+                )
+                for orig, subst in evaluation_result.result.items()
+            ):
+                continue
+
+            changed = True
 
             new_constraint = language.replace_formula(
                 result.constraint,
@@ -1772,7 +1791,7 @@ class ISLaSolver:
                     semantic_predicate_formulas[k].substitute_expressions(substitution),
                 )
 
-            result = SolutionState(new_constraint, result.tree.substitute(substitution))
+            result = SolutionState(new_constraint, substituted_tree)
             assert self.graph.tree_is_valid(result.tree)
 
         return Maybe.from_optional([result] if changed else None)
